@@ -33,13 +33,13 @@ theorem row_push_lt (h : Heap) (x : Array UInt8) (a : Nat) (ha : a < h.size) :
 
 theorem row_write_ne (h : Heap) (arr s : Nat) (vs : List UInt8) (a : Nat) (hne : a ≠ arr) :
     Heap.row (h.write arr s vs) a = Heap.row h a := by
-  simp [Heap.row, Heap.write, Array.getElem?_setIfInBounds, Ne.symm hne]
+  simp [Heap.row, Heap.write, Ne.symm hne]
 
 theorem row_write_eq (h : Heap) (arr s : Nat) (vs : List UInt8) :
     Heap.row (h.write arr s vs) arr = writeList (Heap.row h arr) s vs ∨ Heap.row (h.write arr s vs) arr = Heap.row h arr := by
   by_cases hl : arr < h.size
-  · left; simp [Heap.row, Heap.write, Array.getElem?_setIfInBounds, hl]
-  · right; simp [Heap.row, Heap.write, Array.getElem?_setIfInBounds, hl]
+  · left; simp [Heap.row, Heap.write, hl]
+  · right; simp [Heap.row, Heap.write, hl]
 
 theorem size_write (h : Heap) (arr s : Nat) (vs : List UInt8) : (h.write arr s vs).size = h.size := by
   simp [Heap.write]
